@@ -7,26 +7,27 @@ EXTENDS SessionRef
 
 VARIABLES i,        \* 0 = not started, 1..N = stopped at X[i], Exited
           ubp,      \* addresses of the user's breakpoints
-          ncmd,
+          ncmd,     \* commands issued
+          nbk,      \* of which break/remove (bounded by MaxBk so that histories are not all bookkeeping)
           hist      \* commands issued so far (generation only; hidden by VIEW)
-vars == <<i, ubp, ncmd, hist>>
-View == <<i, ubp, ncmd>>
+vars == <<i, ubp, ncmd, nbk, hist>>
+View == <<i, ubp, ncmd, nbk>>
 
-Init == i = 0 /\ ubp = {} /\ ncmd = 0 /\ hist = <<>>
+Init == i = 0 /\ ubp = {} /\ ncmd = 0 /\ nbk = 0 /\ hist = <<>>
 
 Log(c) == hist' = Append(hist, c @@ [at |-> i']) /\ ncmd' = ncmd + 1
-Break(a)  == /\ a \notin ubp /\ Cardinality(ubp) < MaxBps /\ i # Exited
+Break(a)  == /\ a \notin ubp /\ Cardinality(ubp) < MaxBps /\ i # Exited /\ nbk < MaxBk /\ nbk' = nbk + 1
              /\ ubp' = ubp \cup {a} /\ UNCHANGED i /\ Log([cmd |-> "break_addr", addr |-> a])
-Remove(a) == /\ a \in ubp /\ i # Exited
+Remove(a) == /\ a \in ubp /\ i # Exited /\ nbk < MaxBk /\ nbk' = nbk + 1
              /\ ubp' = ubp \ {a} /\ UNCHANGED i /\ Log([cmd |-> "remove_addr", addr |-> a])
-Start     == /\ i = 0 /\ i' = RefContinue(0, ubp) /\ Log([cmd |-> "start"]) /\ UNCHANGED ubp
-Continue  == /\ i \in 1..N /\ i' = RefContinue(i, ubp) /\ Log([cmd |-> "continue"]) /\ UNCHANGED ubp
+Start     == /\ i = 0 /\ i' = RefContinue(0, ubp) /\ Log([cmd |-> "start"]) /\ UNCHANGED <<ubp, nbk>>
+Continue  == /\ i \in 1..N /\ i' = RefContinue(i, ubp) /\ Log([cmd |-> "continue"]) /\ UNCHANGED <<ubp, nbk>>
 StepCmd(c) == /\ i \in 1..N
               /\ (c = "stepi") => ~X[i].ext
               /\ \E j \in Adm(c, i) \cup {RefContinue(i, ubp)} :
                     /\ j <= MaxOf(Adm(c, i))
                     /\ i' = j
-              /\ Log([cmd |-> c]) /\ UNCHANGED ubp
+              /\ Log([cmd |-> c]) /\ UNCHANGED <<ubp, nbk>>
 Cmd == \/ \E a \in BpCands : Break(a) \/ Remove(a)
        \/ Start \/ Continue
        \/ \E c \in {"stepi", "step", "next", "finish"} : StepCmd(c)
@@ -44,6 +45,6 @@ ImplNextMeetsRef   == (i \in 1..N) => ImplNextOk(i, ubp)
 ImplFinishMeetsRef == (i \in 1..N /\ D(i) > 0) => ImplFinishOk(i, ubp)
 
 \* emit every complete history once (mode G): used through an invariant that is always TRUE
-EmitHist == (ncmd = MaxCmd) => PrintT(<<"HIST", ToJson(hist)>>)
+EmitHist == (ncmd = MaxCmd \/ i = Exited) => PrintT(<<"HIST", ToJson(hist)>>)
 
 =============================================================================
